@@ -24,14 +24,13 @@ def write_oracle(d, path, V=None):
                     skipped.append("%s::%s (no abbreviation)" % (u["name"], e["id"]))
                     continue
                 try:
-                    ms = [m for m in S.meanings(e["abbreviation"]) if m.dims == dims]
+                    m, _dims_agree = dumpbase.choose_meaning(e["abbreviation"], dims)
                 except S.ParseError as ex:
                     skipped.append("%s::%s (%s)" % (u["name"], e["id"], ex))
                     continue
-                if len({(m.mag, m.pi) for m in ms}) != 1:
+                if m is None:
                     skipped.append("%s::%s (no unique meaning of %r with the type's dimensions)" % (u["name"], e["id"], e["abbreviation"]))
                     continue
-                m = ms[0]
                 off = S.temperature_offset(e["abbreviation"]) if u["name"] == "Temperature" else None
                 f.write("%s %d %d %s %s\n" % (u["name"], e["value"], m.pi, S.frac_to_decimal(m.mag),
                                               S.frac_to_decimal(off) if off else "0"))
